@@ -10,7 +10,9 @@ CONSTANTS CloudKind,    \* "noassign" (SimpleClouds as found) | "std" (repaired)
 VARIABLE hist
 
 MCContribs == {"abs", "cia", "ray", "cloud"}
-MCNComp == [c \in MCContribs |-> IF c \in {"abs", "ray"} THEN 2 ELSE 1]
+\* absorption: two molecules; CIA: two collision pairs; Rayleigh: two species; the deck: one
+MCNComp == [c \in MCContribs |-> IF c \in {"abs", "ray", "cia"} THEN 2 ELSE 1]
+MCShared == [c \in MCContribs |-> c = "cia"]
 MCKind  == [c \in MCContribs |-> IF c = "cloud" THEN CloudKind ELSE "std"]
 MCOrder == [c \in MCContribs |-> IF c = "cloud" THEN 3 ELSE 5]
 
